@@ -6,7 +6,7 @@ import itertools
 
 from ..kernel import Chooser
 from ..lazy import seq
-from ..seqcheck import Divergence, DiffChooser, explore_task
+from ..seqcheck import Divergence, DiffChooser, explore_task, nest_tasks
 from ..spec import deadline_s
 from ..tracelib import first_diff, split_calls
 
@@ -55,6 +55,16 @@ def tasks(tier):
                 out.append({"family": "envelope", "cfg": dict(cfg, script_prefix=[first]),
                             "entry": e, "bound": 1 if tier == "quick" else 2,
                             "weight": 1 if first == "ok" else 5})
+    for D, e in itertools.product([2, 4], ["RetrySet.call", "RetrySet.execute", "AsyncRetrySet.call",
+                                           "RetryPolicySet.call", "AsyncRetryPolicySet.execute"]):
+        cfg = dict(M=3, deadline=D, alphabet=["ok", "x:T", "r:R"], durs=[0, 1, 3], dur_free=True,
+                   strat_menu=[1, 9], strat_free=True, overshoot=[0, 3], over_free=True,
+                   max_unknown=None, sleeper="policy")
+        out.append({"family": "envelope-assigned", "cfg": cfg, "entry": e, "bound": 0, "weight": 3})
+    for t in nest_tasks(Q4, "envelope-reentrant", ["ok", "x:T", "r:R"], bound=1, deadline=3,
+                        durs=[0, 2], dur_free=True, strat_menu=[1, 9], overshoot=[0, 3]):
+        t["cfg"]["nest"] = dict(t["cfg"]["nest"], script=["x:T", "ok"])
+        out.append(t)
     for D, at, e in itertools.product([3, 4], [1, 2], Q4):
         cfg = dict(M=3, deadline=D, alphabet=["ok", "x:T", "r:R"], durs=[0, 1, 3, 5], dur_free=True,
                    strat_menu=[1, 0, 9], strat_free=True, overshoot=[0, 1, 3], over_free=True,
